@@ -2,6 +2,7 @@ import Grass.CssTree
 import GrassProofs.Lemmas.CssTreeBasic
 import GrassProofs.Lemmas.CssTreeSel
 import GrassProofs.Lemmas.CssTreeBuild
+import GrassProofs.Lemmas.CssTreeBubble2
 /-
   C04 — Nesting, `&`, @at-root and bubbling at-rules flatten to equivalent flat CSS.
 
@@ -147,7 +148,72 @@ theorem C04_declaration_order (af : AsFound) (sel : SelList) (ds : Decls)
   | nil => exact absurd hd hne
   | cons d rest => simp [wrapBlock, seqRes, SCtx.home, SCtx.ruleHere, Block.nonEmpty]
 
-/-! ### bubbling and @at-root: covered by the correspondence; kernel-checked instances and witnesses -/
+/-! ### growth 1: bubbling @media / @supports / unknown at-rules -/
+
+-- `bubOnlyL src`: style rules, declarations, nested properties, @media (feature-only queries),
+-- @supports and unknown at-rules, nested in each other to any depth; no @at-root
+-- (GrassProofs/Lemmas/CssTreeBubble.lean).
+-- `readIdx r` / `observeIdx t` (Lemmas/CssTreeBubble2.lean): the blocks of the built tree read off
+-- the index tree directly — every non-declaration node in index (= creation) order, its at-rule
+-- context from the parent chain, its declarations from its child list, empty blocks dropped.
+
+/-- **Bubbling (partial).**  For every tree of the bubbling fragment and every variant of the
+    visitor that has the shallow sibling test of the code as it stands (`AsFound.code`,
+    `AsFound.pinned`), the tree built by grass's algorithm — `add_child` with the three `through`
+    closures (style rules; style rules and the @media rules already merged), the
+    copy-when-following-sibling step, the style rule re-created inside every bubbling at-rule,
+    nested @media merged with the nearest enclosing @media and lifted out of it, declarations
+    attached to the current parent — contains, in creation order, exactly the blocks
+    (at-rule context, selector, declarations) that flattening by hand yields, and fails with the
+    same error where flattening by hand fails.  One bubbling lemma (`bubble_rel`) serves the three
+    at-rules; `addChild_landing` covers both branches of the sibling test (the copy inherits kind,
+    parent and therefore context of the landing node).
+    MISSING for the full statement (`C04_bubbling_full` below): that the mutating `finish` plus the
+    serializer's invisibility rule emit the nodes of such a tree in creation order, each under the
+    context its parent chain spells — `C04_finish_reads_index_order_full`.  That is exactly the
+    part where the *position* of the copy (after the interstitial sibling) matters; it is proved
+    for the style-rule fragment (`finish_wf`) and covered by the correspondence for the rest. -/
+theorem C04_treeBuild_eq_flattenSpec_bubbling_partial (af : AsFound) (h : af.shallowSibling = true)
+    (src : Stmts) (hb : bubOnlyL src = true) : readIdx (treeBuild af src) = flattenSpec src :=
+  readIdx_eq_flattenSpec_bubbling af h src hb
+
+-- hypothesis satisfiable, non-trivially: `@media (f0) { a { @media (f1) { x: 1 } b { y: 2 } } }`
+example : bubOnlyL
+    (.cons (.media [[0]] (.cons (.rule [[.cmp ⟨none, ["a"]⟩]]
+      (.cons (.media [[1]] (.cons (.decl (.mk "x" (some "1") .nil)) .nil))
+        (.cons (.rule [[.cmp ⟨none, ["b"]⟩]] (.cons (.decl (.mk "y" (some "2") .nil)) .nil)) .nil))) .nil)) .nil) = true := by
+  decide
+
+/-- The missing link, stated exactly: `finish` + invisibility + the reader's block view return the
+    index-order reading for every tree the visitor builds from the bubbling fragment. -/
+def C04_finish_reads_index_order_full : Prop :=
+  ∀ (af : AsFound) (src : Stmts) (t : Tree), af.shallowSibling = true → bubOnlyL src = true →
+    treeBuild af src = .ok t → observeTree t = .ok (observeIdx t)
+
+/-- Growth 1 in full (follows from the partial theorem and `C04_finish_reads_index_order_full`). -/
+def C04_bubbling_full : Prop :=
+  ∀ (af : AsFound) (src : Stmts), af.shallowSibling = true → bubOnlyL src = true →
+    compile af src = flattenSpec src
+
+theorem C04_bubbling_full_of_finish (hfin : C04_finish_reads_index_order_full) : C04_bubbling_full := by
+  intro af src h hb
+  have hp := C04_treeBuild_eq_flattenSpec_bubbling_partial af h src hb
+  unfold compile observe
+  cases ht : treeBuild af src with
+  | error e => rw [ht] at hp; exact hp
+  | ok t =>
+    rw [ht] at hp
+    simp only [readIdx] at hp
+    show observeTree t = flattenSpec src
+    rw [hfin af src t h hb ht]; exact hp
+
+/-- Growth 2, not proved: @at-root (without and with queries) for the specified variant.  Missing:
+    an invariant for `link_child_to_parent` trees (copies re-parented above one another) and the
+    deep sibling test `addRawDeep`; covered by the correspondence only. -/
+def C04_atroot_full : Prop :=
+  ∀ src : Stmts, compile AsFound.specified src = flattenSpec src
+
+/-! ### bubbling and @at-root: kernel-checked instances and witnesses -/
 
 /-- DESIGN §8 example: `@media (f0) { a { @media (f1) { x: 1 } b { y: 2 } } }` — the inner @media
     bubbles out merged, and `a b` needs a *copy* of `@media (f0)` because the merged rule now
